@@ -78,7 +78,9 @@ Definition c03_pinned_before_first_pods (c : case) : bool :=
     match sub_of (rc_status i) with
     | Some u =>
       if (su_idx u =? 1) && sstate_eqb (su_state u) StInit && negb (strategy_empty (tr_strategy (tspec c) 1)) &&
-         negb (opt_eqb br_eqb (rc_br i) (ob_br o))
+         (* re-aligning the BatchRelease's rollout-id (syncBatchRelease, before the step runs) creates no pods: only a change
+            beyond that one counts *)
+         negb (opt_eqb br_eqb (snd (sync_br u (rc_br i))) (ob_br o))
       then match get_step (rc_spec i) 1 with
            | Some cur => full_step (rc_wl i) cur || opt_eqb String.eqb (n_stable_sel (x_obs_net c)) (Some (su_stable u))
            | None => true end
